@@ -14,7 +14,7 @@ CHECKS = {
         "design_ref": "DESIGN.md §4 U13, §5 C13",
         "note": "The proof covers per-frame exclusivity only. The cross-frame clause for the client-to-server direction (events still in Bevy's double buffer when the status changes, 'nothing is put on the network' without a connection, no panic) "
                 "is covered by a BOUNDED native stand-in (u13s: one real App, every sequence of status changes, emissions and frames to depth 6/7; labelled bounded, not counted as proved); it found two defects, both repaired. "
-                "Not covered: the server-to-client direction across frames, recipient logic of ServerEvent::resend_locally_typed, events with entity targets. Res/Local are modelled as references.",
+                "The same unit covers the server-to-client direction for events (local observation exactly when the local server is a recipient; at most once to a remote client). Not covered: server triggers, events with entity targets. Res/Local are modelled as references.",
         "technique": "contract-based deductive verification: Verus requires/ensures (incl. closure contracts) woven onto verbatim-extracted functions, plus a lemma over those contracts",
     },
     "C17": {
